@@ -93,8 +93,7 @@ theorem processLowest_eq (inj : BSt → Nat → BSt) (s : BSt) :
       cases flag <;> simp only [popSt, raiseSt, hpe] <;> rfl
 
 /-- what a property must be stable under to hold along every schedule -/
-structure Closed (P : BSt → Prop) : Prop where
-  front : ∀ s f, P s → P (applyFront s f).1
+structure ClosedB (P : BSt → Prop) : Prop where
   siteCnt : ∀ s x, P s → P { s with siteCnt := x }
   emitInj : ∀ s a b c d, P s → P (s.emit (.inj a b c d))
   clock : ∀ s n, P s → P { s with now := n }
@@ -103,7 +102,13 @@ structure Closed (P : BSt → Prop) : Prop where
   allEmpty : ∀ s, P s → P (allEmpty s).1
   hasPending : ∀ s, P s → P (hasPending s).1
   cleanupContexts : ∀ s, P s → P (cleanupContexts s)
-  cleanupLoggers : ∀ s, P s → P (cleanupLoggers s)
+  invFlag : ∀ s b, P s → P { s with hasInvalidLoggers := b }
+  erase : ∀ s i, P s → (s.lgOf i).valid = false → (Backend.allEmpty s).2 = true →
+            P ((Backend.allEmpty s).1.setLg i (fun l => { l with erased := true }))
+  reap : ∀ s sid, P s → (s.sinkOf sid).alive = true → sinkRefs s sid = 0 →
+            P ((s.setSink sid (fun k => { k with alive := false })).emit (.sinkDtor sid))
+  flagRemoval : ∀ s f g, P s → P { s with flags := f :: s.flags, flagLog := (f, s.log.length) :: s.flagLog,
+                                          removalFlags := s.removalFlags.filter (·.1 ≠ g) }
   flushSinks : ∀ s, P s → P (flushSinks s)
   readPrep : ∀ s i, P s → P (readPrepSt s i)
   commit : ∀ s i, P s → P (commitSt s i)
@@ -112,6 +117,10 @@ structure Closed (P : BSt → Prop) : Prop where
   report : ∀ s i, P s → (s.th i).fail > 0 → P (reportSt s i)
   pop : ∀ s i st rest, P s → lowest s = some i → (s.th i).buf = st :: rest → P (popSt s i st rest)
   raise : ∀ s f, P s → (∃ st, s.popLog.head? = some st ∧ st.kind = .flush f) → P (raiseSt s f)
+
+/-- … and, for schedules with frontend operations, under every frontend operation -/
+structure Closed (P : BSt → Prop) : Prop extends ClosedB P where
+  front : ∀ s f, P s → P (applyFront s f).1
 
 /-- the injection runner keeps the property (and does not touch the backend's pop history) -/
 def InjOK (P : BSt → Prop) (inj : BSt → Nat → BSt) : Prop :=
@@ -278,8 +287,13 @@ theorem cleanupContexts_popLog (s : BSt) : (cleanupContexts s).popLog = s.popLog
   · rfl
   · exact go_popLog _ _
 
+/-- the frontend operation an injection runs: at site 9 (inside the logger clean-up, which holds the manager's lock) a
+    call that needs that lock does nothing -/
+def injRes (site : Nat) (s : BSt) (f : FOp) : BSt × String :=
+  if site = 9 && f.needsManagerLock then (s, "noop") else applyFront s f
+
 def injStep (site k : Nat) (s : BSt) (f : FOp) : BSt :=
-  (applyFront s f).1.emit (.inj site k f.show (applyFront s f).2)
+  (injRes site s f).1.emit (.inj site k f.show (injRes site s f).2)
 
 def siteK (s : BSt) (site : Nat) : Nat := ((s.siteCnt.find? (·.1 = site)).map (·.2)).getD 0 + 1
 
@@ -301,7 +315,12 @@ theorem runInj_popLog (table : List (Nat × Nat × List FOp)) (s : BSt) (site : 
       intro l
       induction l with
       | nil => intro x; rfl
-      | cons f fs ih => intro x; simp only [List.foldl_cons]; rw [ih]; exact applyFront_popLog x f
+      | cons f fs ih =>
+        intro x; simp only [List.foldl_cons]; rw [ih]
+        show (injRes site x f).1.popLog = _
+        unfold injRes; split
+        · rfl
+        · exact applyFront_popLog x f
     rw [this]
 
 /-! ### a closed property holds along every schedule -/
@@ -334,18 +353,121 @@ theorem processEvent_flag (s : BSt) (st : Stmt) (f : Nat) (h : (processEvent s s
   · cases h
 
 
-section
-variable {P : BSt → Prop} (hc : Closed P)
-include hc
-
-theorem runInj_ok (table : List (Nat × Nat × List FOp)) : InjOK P (runInj table) := by
+theorem runInj_ok {P : BSt → Prop} (hc : Closed P) (table : List (Nat × Nat × List FOp)) : InjOK P (runInj table) := by
   intro s site hs
   refine ⟨?_, runInj_popLog table s site⟩
   rw [runInj_eq]
   have h1 := hc.siteCnt s ((site, siteK s site) :: s.siteCnt.filter (·.1 ≠ site)) hs
   split
   · exact h1
-  · exact foldl_pres P _ (fun x f hx => hc.emitInj _ _ _ _ _ (hc.front x f hx)) _ _ h1
+  · refine foldl_pres P _ (fun x f hx => hc.emitInj _ _ _ _ _ ?_) _ _ h1
+    show P (injRes site x f).1
+    unfold injRes; split
+    · exact hx
+    · exact hc.front x f hx
+
+/-- with nothing scheduled at the hook sites only the visit counters change: no frontend closure needed -/
+theorem runInj_nil_ok {P : BSt → Prop} (hc : ClosedB P) : InjOK P (runInj []) := by
+  intro s site hs
+  refine ⟨?_, runInj_popLog [] s site⟩
+  rw [runInj_eq]
+  exact hc.siteCnt s _ hs
+
+/-- one logger of the clean-up loop -/
+def lgStep (inj : BSt → Nat → BSt) (acc : BSt × List Nat) (i : Nat) : BSt × List Nat :=
+  if (acc.1.lgOf i).valid then acc else
+  if (allEmpty acc.1).2 then
+    (reapSinksInj inj ((allEmpty acc.1).1.setLg i (fun l => { l with erased := true })) (acc.1.lgOf i).sinks,
+      acc.2 ++ [(acc.1.lgOf i).gid])
+  else ({ (allEmpty acc.1).1 with hasInvalidLoggers := true }, acc.2)
+
+/-- raising the removal flag recorded for a name -/
+def flagStep (s : BSt) (gid : Nat) : BSt :=
+  match s.removalFlags.find? (·.1 = gid) with
+  | some (_, f) => { s with flags := f :: s.flags, flagLog := (f, s.log.length) :: s.flagLog,
+                            removalFlags := s.removalFlags.filter (·.1 ≠ gid) }
+  | none => s
+
+/-- the loggers the clean-up visits: those not yet erased, by name -/
+def lgOrder (s : BSt) : List Nat :=
+  insSorted (fun a b => decide ((s.lgOf a).gid ≤ (s.lgOf b).gid))
+    ((List.range s.lgs.length).filter (fun i => !(s.lgOf i).erased))
+
+theorem cleanupLoggers_eq (inj : BSt → Nat → BSt) (s : BSt) :
+    cleanupLoggers inj s =
+      if !s.hasInvalidLoggers then s else
+      (((lgOrder { s with hasInvalidLoggers := false }).foldl (lgStep inj) ({ s with hasInvalidLoggers := false }, [])).2).foldl
+        flagStep ((lgOrder { s with hasInvalidLoggers := false }).foldl (lgStep inj) ({ s with hasInvalidLoggers := false }, [])).1 := by
+  unfold cleanupLoggers
+  split
+  · rfl
+  · rfl
+
+/-- nothing but the visit counter changes at hook site 9 (inside the logger clean-up) -/
+def Quiet9 (inj : BSt → Nat → BSt) : Prop := ∀ s, ∃ sc, inj s 9 = { s with siteCnt := sc }
+
+theorem runInj_quiet9 (table : List (Nat × Nat × List FOp)) (h : ∀ e ∈ table, e.1 ≠ 9) : Quiet9 (runInj table) := by
+  intro s
+  rw [runInj_eq]
+  split
+  · exact ⟨_, rfl⟩
+  · rename_i a b ops hf
+    have hm := List.mem_of_find?_eq_some hf
+    have hp := List.find?_some hf
+    simp only [decide_eq_true_eq] at hp
+    exact absurd hp.1 (h _ hm)
+
+theorem runInj_nil_quiet9 : Quiet9 (runInj []) := runInj_quiet9 [] (fun _ h => by cases h)
+
+/-- the logger clean-up, step by step: what a property must be stable under to survive it -/
+theorem cleanupLoggers_steps (P : BSt → Prop) (inj : BSt → Nat → BSt) (h9 : ∀ x, P x → P (inj x 9))
+    (hInv : ∀ x b, P x → P { x with hasInvalidLoggers := b })
+    (hAll : ∀ x, P x → P (allEmpty x).1)
+    (hEr : ∀ x i, P x → (x.lgOf i).valid = false → (allEmpty x).2 = true →
+      P ((allEmpty x).1.setLg i (fun l => { l with erased := true })))
+    (hReap : ∀ x sid, P x → (x.sinkOf sid).alive = true → sinkRefs x sid = 0 →
+      P ((x.setSink sid (fun k => { k with alive := false })).emit (.sinkDtor sid)))
+    (hFlag : ∀ x f g, P x → P { x with flags := f :: x.flags, flagLog := (f, x.log.length) :: x.flagLog,
+                                        removalFlags := x.removalFlags.filter (·.1 ≠ g) })
+    (s : BSt) (hs : P s) : P (cleanupLoggers inj s) := by
+  have hreap : ∀ (sids : List Nat) (x : BSt), P x → P (reapSinksInj inj x sids) := by
+    intro sids
+    unfold reapSinksInj
+    induction sids with
+    | nil => intro x hx; exact hx
+    | cons y ys ih =>
+      intro x hx
+      simp only [List.foldl_cons]
+      apply ih
+      split
+      · rename_i hcnd
+        simp only [Bool.and_eq_true, decide_eq_true_eq] at hcnd
+        exact h9 _ (hReap x y hx hcnd.1 hcnd.2)
+      · exact hx
+  rw [cleanupLoggers_eq]
+  split
+  · exact hs
+  · apply foldl_pres P
+    · intro x g hx
+      unfold flagStep
+      split
+      · rename_i f _; exact hFlag x f g hx
+      · exact hx
+    · apply foldl_pres_pair P
+      · intro acc i h
+        unfold lgStep
+        split
+        · exact h
+        · rename_i hv
+          split
+          · rename_i he
+            exact hreap _ _ (hEr acc.1 i h (by simpa using hv) he)
+          · exact hInv _ true (hAll _ h)
+      · exact hInv s false hs
+
+section
+variable {P : BSt → Prop} (hc : ClosedB P)
+include hc
 
 theorem readQueue_ok {inj : BSt → Nat → BSt} (hi : InjOK P inj) (tsNow : Option Nat) (i : Nat) :
     ∀ (fuel total : Nat) (s : BSt), P s → P (readQueue inj tsNow i fuel total s)
@@ -458,6 +580,47 @@ theorem batchLoop_ok {inj : BSt → Nat → BSt} (hi : InjOK P inj) :
       · exact hl
       · exact batchLoop_ok hi fuel _ (hi _ 4 hl).1
 
+/-- the sinks of an erased logger are destroyed one by one, hook site 9 after each destruction -/
+theorem reapSinksInj_ok {inj : BSt → Nat → BSt} (hi : InjOK P inj) (sids : List Nat) :
+    ∀ (s : BSt), P s → P (reapSinksInj inj s sids) := by
+  unfold reapSinksInj
+  induction sids with
+  | nil => intro s hs; exact hs
+  | cons x xs ih =>
+    intro s hs
+    simp only [List.foldl_cons]
+    apply ih
+    split
+    · rename_i hcnd
+      simp only [Bool.and_eq_true, decide_eq_true_eq] at hcnd
+      exact (hi _ 9 (hc.reap s x hs hcnd.1 hcnd.2)).1
+    · exact hs
+
+theorem lgStep_ok {inj : BSt → Nat → BSt} (hi : InjOK P inj) (acc : BSt × List Nat) (i : Nat) (h : P acc.1) :
+    P (lgStep inj acc i).1 := by
+  unfold lgStep
+  split
+  · exact h
+  · rename_i hv
+    split
+    · rename_i he
+      exact reapSinksInj_ok hc hi _ _ (hc.erase acc.1 i h (by simpa using hv) he)
+    · exact hc.invFlag _ true (hc.allEmpty _ h)
+
+theorem flagStep_ok (s : BSt) (gid : Nat) (h : P s) : P (flagStep s gid) := by
+  unfold flagStep
+  split
+  · rename_i f _; exact hc.flagRemoval s f gid h
+  · exact h
+
+theorem cleanupLoggers_ok {inj : BSt → Nat → BSt} (hi : InjOK P inj) (s : BSt) (hs : P s) :
+    P (cleanupLoggers inj s) := by
+  rw [cleanupLoggers_eq]
+  split
+  · exact hs
+  · apply foldl_pres P _ (fun x g hx => flagStep_ok hc x g hx)
+    exact foldl_pres_pair P _ (fun acc i h => lgStep_ok hc hi acc i h) _ _ (hc.invFlag s false hs)
+
 theorem poll_ok {inj : BSt → Nat → BSt} (hi : InjOK P inj) (s : BSt) (hs : P s) : P (poll inj s) := by
   unfold poll
   have hp := populate_ok hc hi s hs
@@ -471,7 +634,7 @@ theorem poll_ok {inj : BSt → Nat → BSt} (hi : InjOK P inj) (s : BSt) (hs : P
   · have h3 := checkFailures_ok hc hi _ (hc.flushSinks _ (hi _ 5 hp).1)
     have h4 := hc.allEmpty _ h3
     split
-    · exact hc.cleanupLoggers _ (hc.cleanupContexts _ h4)
+    · exact cleanupLoggers_ok hc hi _ (hc.cleanupContexts _ h4)
     · exact h4
 
 theorem exitLoop_ok {inj : BSt → Nat → BSt} (hi : InjOK P inj) (tick : Nat) :
@@ -482,7 +645,7 @@ theorem exitLoop_ok {inj : BSt → Nat → BSt} (hi : InjOK P inj) (tick : Nat) 
     simp only []
     have h1 := hc.allEmpty s hs
     split
-    · exact hc.cleanupLoggers _ (hc.cleanupContexts _ (hc.flushSinks _ (checkFailures_ok hc hi _ h1)))
+    · exact cleanupLoggers_ok hc hi _ (hc.cleanupContexts _ (hc.flushSinks _ (checkFailures_ok hc hi _ h1)))
     · have h2 := populate_ok hc hi _ (hc.clock _ ((allEmpty s).1.now + tick) h1)
       rcases hpe : populate inj { (allEmpty s).1 with now := (allEmpty s).1.now + tick } with ⟨s1, count⟩
       rw [hpe] at h2
@@ -492,25 +655,26 @@ theorem exitLoop_ok {inj : BSt → Nat → BSt} (hi : InjOK P inj) (tick : Nat) 
       · exact batchLoop_ok hc hi _ _ h2
       · exact h2
 
-theorem applyOp_closed (s : BSt) (op : Op) (hs : P s) : P (applyOp s op).1 := by
+end
+
+theorem applyOp_closed {P : BSt → Prop} (hc : Closed P) (s : BSt) (op : Op) (hs : P s) : P (applyOp s op).1 := by
   cases op with
   | front f => exact hc.front s f hs
   | poll table =>
     simp only [applyOp]; split
     · exact hs
-    · exact poll_ok hc (runInj_ok hc table) _ (hc.siteCnt s [] hs)
+    · exact poll_ok hc.toClosedB (runInj_ok hc table) _ (hc.siteCnt s [] hs)
   | exit =>
     simp only [applyOp]; split
     · exact hs
-    · exact hc.gone _ (exitLoop_ok hc (runInj_ok hc []) _ _ _ (hc.siteCnt s [] hs))
+    · exact hc.gone _ (exitLoop_ok hc.toClosedB (runInj_ok hc []) _ _ _ (hc.siteCnt s [] hs))
 
 /-- **every schedule**: a closed property of the initial state holds after any list of operations -/
-theorem runOps_closed : ∀ (ops : List Op) (s : BSt), P s → P (runOps s ops)
+theorem runOps_closed {P : BSt → Prop} (hc : Closed P) : ∀ (ops : List Op) (s : BSt), P s → P (runOps s ops)
   | [], _, hs => hs
   | o :: os, s, hs => by
     show P (runOps (applyOp s o).1 os)
-    exact runOps_closed os _ (applyOp_closed hc s o hs)
+    exact runOps_closed hc os _ (applyOp_closed hc s o hs)
 
-end
 
 end Backend.PC
